@@ -2,12 +2,12 @@ SPECIFICATION SpecX
 CONSTANTS Names <- NamesMB Depth = 3 Vals <- ValsX Sep = 46 Design = "list" Base <- BaseA MaxSlots = 6
   Ends <- Ends0 Strs <- None Seps <- None Asgs <- None Elems <- None
   Configs <- DefaultOnly OptNames <- OptA SecNames <- None Values <- ValsDocX Decos <- Decos1 MaxNodes = 1 MaxDepth = 1
-  Routes <- RAll Cfgs <- CfgTV PrePaths <- PreC
-  LoadKinds <- LoadQ TwoFiles = FALSE EnvCalls <- EnvQ ArgCalls <- ArgsQ ClearLists <- ClearQ
+  Routes <- RAll Cfgs <- CfgTV SingleKinds <- SKBoth PrePaths <- PreC
+  LoadKinds <- LoadB TwoFiles = TRUE EnvCalls <- EnvQ ArgCalls <- ArgsQ ClearLists <- ClearQ
   MsgSets <- MSetQ MsgGets <- MGetQ NodeBases <- BasesQ FputSeps <- None
   MaxOps = 2 MaxArr = 2 SinglesFirst = FALSE Observe = FALSE
 CONSTRAINT Bound
 VIEW ViewF
 INVARIANTS Refines PrefixClosed
-PROPERTIES ArrivalProp MapProp
+PROPERTIES ArrivalProp SingleProp
 CHECK_DEADLOCK FALSE
